@@ -340,6 +340,7 @@ def main():
     live = []
     for tab in ("LDA_CODES", "GGA_CODES", "MGGA_CODES", "SS_GGA_CODES", "OS_GGA_CODES"):
         live += sorted(getattr(baselines, tab, {}).keys())
+    libxc_cfgs = []
     for code in live:
         MUL2[code] = code
         ADD2[code] = code
@@ -348,8 +349,21 @@ def main():
                 for nspin in (1, 2):
                     c = {"ver": "v2", "mode": mode, "nspin": nspin, "evals": ["rbf"], "mul": code if role == "mul" else "gga_x",
                          "add": code if role == "add" else "none", "cut": "below_all"}
+                    libxc_cfgs.append(c)
                     check_cfg(ck, c, rng)
     ck.extra["libxc_codes_checked"] = live
+    # the same libxc-backed cases with THREE OpenMP threads and more points than threads (the libxc wrapper and the C kernel
+    # evaluators partition the grid per thread: value and derivative must stay consistent whatever the team size)
+    for res in run_workers(os.path.abspath(__file__), [{"threaded": True, "cfgs": libxc_cfgs, "live": live, "seed": ck.seed + 77}], nproc=1, timeout=3000, threads=3,
+                           allow_crash=True):
+        if "worker_died" in res:
+            ck.violation("threads=3:process-died", {"returncode": res["worker_died"], "log": res["log"][-400:]})
+        elif "crash" in res:
+            raise MachineryError("worker crashed: %s\n%s" % (res["crash"], res.get("tb")))
+        else:
+            for v in res["violations"]:
+                ck.violation("threads=3:" + v["site"], v["detail"], v["replay"])
+            ck.evaluations += res["evaluations"]
     ck.assumptions = ["features in the admissible domain, away from non-smooth loci (Chachiyo s2<1e-8 branch, points within a FD step of rhocut)",
                       "NNEvaluator (torch) absent", "v2 'one' baseline stands for GGA_X_PBE_SOL, 'zero' for LDA_C_PW_MOD"]
     return ck.finish()
@@ -358,6 +372,15 @@ def main():
 def worker(job):
     ck = Check("C04", "exploration")
     rng = np.random.default_rng(job["seed"])
+    if job.get("threaded"):
+        for code in job["live"]:
+            MUL2[code] = code
+            ADD2[code] = code
+        for c in job["cfgs"]:
+            check_cfg(ck, c, rng, n=23)
+        for kinds, mode, nspin in ((["rbf"], "SEP", 2), (["kernel", "antisym"], "NPOL", 2), (["spinrbf"], "POL", 2), (["spline", "linear"], "SEP", 1)):
+            check_cfg(ck, {"ver": "v1", "mode": mode, "nspin": nspin, "evals": kinds, "mul": "lda_x", "add": "gga_c", "cut": "splits"}, rng, n=23)
+        return {"violations": ck.violations, "evaluations": ck.evaluations, "distinct": sorted(ck.distinct)}
     if job.get("acc"):
         accumulation(ck, rng)
         value_semantics(ck, rng, job.get("vs_hists", []))
